@@ -16,19 +16,26 @@ contract(f"{RT}:Router.gn_data_request_beacon", props=["C02", "C20"], shapes={"s
                   "so_pv_is_ego": "implies(n_sent() == 1, sent0()[12:36] == lpv_int(self.ego_position_vector).to_bytes(24, 'big'))",
                   "length_36": "implies(n_sent() == 1, len(sent0()) == 36)"}, **S)
 
-SHB_PRE = PRE + ["request_ok(request)", "self.mib.itsGnSecurity.value == 0"]
-contract(f"{RT}:Router.gn_data_request_shb", props=["C02", "C20", "C01"], shapes={"self": ROUTER, "request": gnreq(PTT_SHB)},
-         requires=SHB_PRE,
+SHB_PRE = PRE + ["request_ok(request)", "0 <= request.its_aid < 2 ** 32"]
+_PLAIN = "n_sent() == 1 and self.mib.itsGnSecurity.value == 0"
+_SEC = "n_sent() == 1 and self.mib.itsGnSecurity.value == 1"
+_TBS = "common_bytes(request.upper_protocol_entity, request.packet_transport_type.header_type, request.packet_transport_type.header_subtype, request.traffic_class, self.mib.itsGnIsMobile.value, request.length, 1) + lpv_int(self.ego_position_vector).to_bytes(24, 'big') + bytes(4) + request.data"
+contract(f"{RT}:Router.gn_data_request_shb", props=["C02", "C20", "C01", "C05", "C03"], shapes={"self": ROUTER, "request": gnreq(PTT_SHB)},
+         requires=SHB_PRE, raises={"ValueError": "self.mib.itsGnSecurity.value == 1 and self.sign_service is None"},
          ensures={"at_most_one_frame": "n_sent() <= 1",
                   "accepted_iff_handed_over": "(result.result_code.value == 1) == (n_sent() == 1 or self.link_layer is None)",
-                  "basic_hop_limit_1": "implies(n_sent() == 1, frame_basic_ok(sent0(), 1, 1))",
+                  "basic_hop_limit_1": f"implies(n_sent() == 1, frame_basic_ok(sent0(), 1 if self.mib.itsGnSecurity.value == 0 else 2, 1))",
                   "lifetime_is_best_for_request": "implies(n_sent() == 1, frame_lifetime_ms(sent0()) == best_ms(requested_ms_int(request.max_packet_lifetime, self.mib.itsGnDefaultPacketLifetime)))",
-                  "common_header": "implies(n_sent() == 1, sent0()[4:12] == common_bytes(request.upper_protocol_entity, request.packet_transport_type.header_type, request.packet_transport_type.header_subtype, request.traffic_class, self.mib.itsGnIsMobile.value, request.length, 1))",
-                  "so_pv_is_ego": "implies(n_sent() == 1, sent0()[12:36] == lpv_int(self.ego_position_vector).to_bytes(24, 'big'))",
-                  "media_dependent_zero": "implies(n_sent() == 1, sent0()[36:40] == bytes(4))",
-                  "payload": "implies(n_sent() == 1, sent0()[40:] == request.data)"},
-         canary={"mhl_from_request": "implies(n_sent() == 1, be(sent0(), 10, 1) == request.max_hop_limit)"},
-         cover=["n_sent() == 1", "n_sent() == 0"], **S)
+                  "common_header": f"implies({_PLAIN}, sent0()[4:12] == common_bytes(request.upper_protocol_entity, request.packet_transport_type.header_type, request.packet_transport_type.header_subtype, request.traffic_class, self.mib.itsGnIsMobile.value, request.length, 1))",
+                  "so_pv_is_ego": f"implies({_PLAIN}, sent0()[12:36] == lpv_int(self.ego_position_vector).to_bytes(24, 'big'))",
+                  "media_dependent_zero": f"implies({_PLAIN}, sent0()[36:40] == bytes(4))",
+                  "payload": f"implies({_PLAIN}, sent0()[40:] == request.data)",
+                  "with_security_enabled_exactly_one_signing_request": "implies(self.mib.itsGnSecurity.value == 1, len(ghost('sign_calls')) == 1) and implies(self.mib.itsGnSecurity.value == 0, len(ghost('sign_calls')) == 0)",
+                  "cam_and_vam_are_signed_with_the_awareness_profile_others_with_the_generic_one": "implies(self.mib.itsGnSecurity.value == 1, ghost('sign_calls')[0][0] == ('sign_cam' if request.security_profile.value == 1 or request.security_profile.value == 3 else 'sign_request'))",
+                  "what_is_signed_is_common_header_source_position_and_payload": f"implies(self.mib.itsGnSecurity.value == 1, ghost('sign_calls')[0][1].tbs_message == {_TBS} and ghost('sign_calls')[0][1].its_aid == request.its_aid and ghost('sign_calls')[0][1].permissions == request.security_permissions)",
+                  "secured_frame_is_basic_header_then_the_signed_message": f"implies({_SEC}, sent0()[4:] == signed_message_of_call())"},
+         canary={"mhl_from_request": "implies(n_sent() == 1 and self.mib.itsGnSecurity.value == 0, be(sent0(), 10, 1) == request.max_hop_limit)"},
+         cover=["n_sent() == 1 and self.mib.itsGnSecurity.value == 0", "n_sent() == 1 and self.mib.itsGnSecurity.value == 1", "n_sent() == 0"], **S)
 
 # ---------------------------------------------------------------- GBC / GAC source operation (unsecured profiles)
 GBC_PRE = PRE + ["request_ok(request)", "area_ok(request.area)", "request.security_profile.value != 2",
